@@ -1345,7 +1345,8 @@ func (in *interp) doCall(x *ssa.Call, get func(ssa.Value) Value, role string) Va
 		args = append(args, get(a))
 	}
 	if sc := com.StaticCallee(); sc != nil {
-		if len(sc.Blocks) == 0 {
+		// only functions of the package under verification are executed from their SSA
+		if len(sc.Blocks) == 0 || sc.Package() != in.m.P.SSA {
 			return in.external(sc, args, role)
 		}
 		var bind []Value
